@@ -561,6 +561,13 @@ def tree(rc):
     if not bfs or dotted(bfs[0].args[1] if len(bfs[0].args) > 1 else kwarg(bfs[0], "source")) != p[2]:
         rc.fail(fi, fi.node, "edges must be directed away from root_node (tree search from the root)", construct="orientation")
     est = repo.func(TS, "TreeSearch.estimate")
+    # optional node-valued settings are tested with `is None`, not by truthiness (a column labelled 0 is a legitimate root)
+    for n in walk_no_nested(est.node):
+        if isinstance(n, (ast.If, ast.IfExp)):
+            for leaf in _leaves(n.test):
+                if norm(leaf) in ("self.root_node", "class_node"):
+                    rc.fail(est, n.test, f"`{norm(leaf)}` is tested by truthiness: a falsy column label (0, '') chosen as root/class node is silently replaced", construct=f"truthiness of {norm(leaf)}")
+    rc.ob("TreeSearch.estimate: root_node / class_node presence tests use `is None`")
     for c in calls_named(est, "_create_tree_and_dag"):
         root = c.args[2] if len(c.args) > 2 else kwarg(c, "root_node")
         rc.ob(f"estimate -> {norm(c, 100)}")
@@ -624,6 +631,16 @@ def tree(rc):
             rc.fail(es, es.node, "the returned model must carry the best DAG's nodes and edges", construct="copy best")
 
 
+def _leaves(t):
+    if isinstance(t, ast.BoolOp):
+        for v in t.values:
+            yield from _leaves(v)
+    elif isinstance(t, ast.UnaryOp) and isinstance(t.op, ast.Not):
+        yield from _leaves(t.operand)
+    else:
+        yield t
+
+
 def _negated_weights(call, wname):
     for n in ast.walk(call):
         if isinstance(n, ast.UnaryOp) and isinstance(n.op, ast.USub) and wname in {x.id for x in ast.walk(n.operand) if isinstance(x, ast.Name)}:
@@ -663,6 +680,8 @@ MUTANTS = [
     dict(kind="break", name="no-acyclic-check-of-start", file=HC, expect="C11.seed",
          old="            if not nx.is_directed_acyclic_graph(start_dag):\n                raise ValueError(\n                    \"fixed_edges creates a cycle in start_dag. Please modify either fixed_edges or start_dag.\"\n                )",
          new="            pass"),
+    dict(kind="break", name="root-node-truthiness", file=TS, expect="C11.tree",
+         old="        if self.root_node is None:\n            weights = TreeSearch._get_weights(", new="        if not self.root_node:\n            weights = TreeSearch._get_weights("),
     dict(kind="break", name="minimum-spanning-tree", file=TS, expect="C11.tree",
          old="T = nx.maximum_spanning_tree(", new="T = nx.minimum_spanning_tree("),
     dict(kind="break", name="exhaustive-min", file=ES, expect="C11.tree",
